@@ -36,7 +36,7 @@ impl Prop for C18Prop {
             keyings: 1,
             boundary_per_mille: 0,
             huge_one_in: 1200,
-            hub_one_in: 0,
+            hub_one_in: 500,
         }
         .gen("C18", seed, idx);
         let big = idx % 200 == 199;
@@ -104,11 +104,14 @@ impl Prop for C18Prop {
         };
         let mut certain_ok = false;
         let mut possible_ok = false;
-        for d in &changes {
+        // the iteration at which the documented iteration stops, when every decision up to it is clear-cut
+        let mut stops_at: Option<usize> = None;
+        for (i, d) in changes.iter().enumerate() {
             match band(*d) {
                 -1 => {
                     certain_ok = true;
                     possible_ok = true;
+                    stops_at = Some(i + 1);
                     break;
                 }
                 0 => {
@@ -145,6 +148,19 @@ impl Prop for C18Prop {
                     cx.fail("C18.fixed_point", &sig, format!("one further step x -> normalise(x + A^T x) moves the returned vector by {} in L1, more than the bound {} that follows from the stopping rule (n={}, tol={}, max_iter={}, weighted={}, keying {}) [{}]", moved, bound, n, tol, max_iter, weighted, env.keying, case.specs.short()));
                     return;
                 }
+                // when every stopping decision of the documented iteration is clear-cut, the library stops at the same
+                // iteration and must return that iterate (up to the rounding of sums taken in another order): the
+                // bound above is loose for graphs of thousands of nodes, this comparison is not
+                if let Some(k) = stops_at {
+                    let xr = orc.iterate(k);
+                    let diff: f64 = xr.iter().zip(v.iter()).map(|(a, b)| (a - b).abs()).sum();
+                    if diff > 1e-6 {
+                        let sig = format!("not the documented iterate {} {}", if snap.directed { "directed" } else { "undirected" }, if weighted { "weighted" } else { "unweighted" });
+                        cx.fail("C18.fixed_point", &sig, format!("the documented iteration stops after {} steps (every decision clear-cut); the returned vector differs from that iterate by {} in L1 (n={}, tol={}, max_iter={}, weighted={}, keying {}) [{}]", k, diff, n, tol, max_iter, weighted, env.keying, case.specs.short()));
+                        return;
+                    }
+                    cx.count("compared_with_the_documented_iterate");
+                }
                 if !possible_ok && changes.len() == max_iter as usize {
                     cx.fail("C18.returned_unconverged", "Ok although convergence within max_iter is impossible", format!("returned Ok but the documented iteration cannot meet n*tol = {} within {} iterations (reference changes end with {:?})", thr, max_iter, changes.iter().rev().take(3).collect::<Vec<_>>()));
                     return;
@@ -170,7 +186,7 @@ impl Prop for C18Prop {
         }
     }
     fn rule(&self) -> String {
-        "single-edge graphs (directed / undirected, with self-loops, n <= 40), non-negative weights (dyadic, decimal, with zeros) or unweighted, max_iter in {1,2,5,20,100,1000}, tolerance log-uniform in [1e-12,1e-2], under 4 (quick) / 8 (thorough) hash keyings (the implementation sums in hash order); Ok(x): one entry per node, entries >= 0, | ||x||_2 - 1 | <= 1e-9, and one further step normalise(x + A^T x) moves x by at most 2 sqrt(n) (1+||A||_F) n tol + 1e-9 in L1; exhaustion: a reference iteration with fixed summation order decides whether convergence within max_iter is certain (then Err is a violation), impossible (then Ok is a violation) or too close to call (either). distinct_nontrivial = distinct (graph, arguments) with >= 2 edges; one case in 1200 is a dense graph (1-3 blocks, 60-300 nodes) with 2 100 - 12 500 stored edges under a pool of 2-16 workers (strategy thresholds); in a third of the cases a battery of valid unjudged calls runs first on a sibling graph (same names and edges, other node order), in a fifth the graph is queried on the same object before its last one to three operations are applied (DESIGN.md 0.2)".into()
+        "single-edge graphs (directed / undirected, with self-loops, n <= 40), non-negative weights (dyadic, decimal, with zeros) or unweighted, max_iter in {1,2,5,20,100,1000}, tolerance log-uniform in [1e-12,1e-2], under 4 (quick) / 8 (thorough) hash keyings (the implementation sums in hash order); Ok(x): one entry per node, entries >= 0, | ||x||_2 - 1 | <= 1e-9, and one further step normalise(x + A^T x) moves x by at most 2 sqrt(n) (1+||A||_F) n tol + 1e-9 in L1; exhaustion: a reference iteration with fixed summation order decides whether convergence within max_iter is certain (then Err is a violation), impossible (then Ok is a violation) or too close to call (either). distinct_nontrivial = distinct (graph, arguments) with >= 2 edges; one case in 1200 is a dense graph (1-3 blocks, 60-300 nodes) with 2 100 - 12 500 stored edges under a pool of 2-16 workers (strategy thresholds); in a third of the cases a battery of valid unjudged calls runs first on a sibling graph (same names and edges, other node order), in a fifth the graph is queried on the same object before its last one to three operations are applied (DESIGN.md 0.2); one case in 500 has 4 150 - 4 600 nodes with a hub adjacent to more than 4 096 of them (a self-loop on the hub half of the time); when every stopping decision of the documented iteration is clear-cut the returned vector is compared with that very iterate at 1e-6 in L1 (the fixed-point bound is loose for thousands of nodes)".into()
     }
     fn assumptions(&self) -> Vec<String> {
         vec!["the fixed-point bound follows from the stopping rule and the Lipschitz constant of the normalised step (x >= 0 implies ||x + A^T x||_2 >= 1)".into(), "either outcome is accepted inside the 'too close' band around the stopping threshold".into()]
